@@ -626,6 +626,14 @@ impl<Tx: Debug + ProstMessage + Default, Rx: Debug + ProstMessage + Default> Cha
         }
 
         if self.front_buf.available_space() == 0 {
+            // Frames consumed since the last shift left free room at the head
+            // of the buffer: reclaim it before growing or giving up, otherwise
+            // a frame that fits within max_buffer_size is reported as
+            // BufferFull and can never be completed.
+            self.front_buf.shift();
+        }
+
+        if self.front_buf.available_space() == 0 {
             if self.front_buf.capacity() >= self.max_buffer_size {
                 return Err(ChannelError::BufferFull {
                     capacity: self.front_buf.capacity(),
